@@ -14,6 +14,45 @@ COMMUTATIVE = {"logaddexp", "maximum", "minimum", "max", "min"}
 MODULE_PREFIXES = {"np", "numpy", "math", "torch", "scipy", "special"}
 
 
+SIGNATURES = {}
+
+
+def set_signatures(prog):
+    """Positional parameter names of every package function / method whose name is defined exactly once in the
+    package and is not also a builtin / numpy / container-method name (used by the call normal form above)."""
+    import builtins
+
+    taken = set(dir(builtins)) | set(dir(dict)) | set(dir(list)) | set(dir(str)) | set(dir(set))
+    try:
+        import numpy
+
+        taken |= set(dir(numpy)) | set(dir(numpy.ndarray))
+    except Exception:
+        pass
+    by_name = {}
+    for f in prog.all_functions:
+        by_name.setdefault(f.name, []).append(f)
+    sig = {}
+    for n, fs in by_name.items():
+        if len(fs) != 1 or n in taken or n.startswith("__"):
+            continue
+        a = fs[0].node.args
+        if a.vararg or a.posonlyargs:
+            continue
+        names = [x.arg for x in a.args]
+        if fs[0].cls is not None and names and names[0] in ("self", "cls"):
+            names = names[1:]
+        sig[n] = names
+    SIGNATURES.clear()
+    SIGNATURES.update(sig)
+    try:
+        from . import pat
+
+        pat._cache.clear()
+    except Exception:
+        pass
+
+
 class _Canon(ast.NodeTransformer):
     def __init__(self, rename=None, inline=None):
         self.rename = rename or {}
@@ -48,8 +87,32 @@ class _Canon(ast.NodeTransformer):
         self.generic_visit(node)
         f = node.func
         name = f.id if isinstance(f, ast.Name) else None
+        # one spelling per call of a package function whose name is unique: leading keyword arguments that continue
+        # the positional ones become positional (`f(x, chunksize=c)` == `f(x, c)`)
+        callee = name or (f.attr if isinstance(f, ast.Attribute) else None)
+        sig = SIGNATURES.get(callee)
+        if sig and node.keywords and all(k.arg for k in node.keywords) and not any(isinstance(a_, ast.Starred) for a_ in node.args):
+            kws = {k.arg: k.value for k in node.keywords}
+            args = list(node.args)
+            while len(args) < len(sig) and sig[len(args)] in kws:
+                args.append(kws.pop(sig[len(args)]))
+            node.args = args
+            node.keywords = [k for k in node.keywords if k.arg in kws]
         if name in ("float",) and len(node.args) == 1 and not node.keywords:
             return node.args[0]
+        # one spelling for 1-d joins: array(A + [x]) == append(A, x) == concatenate([A, [x]]);
+        # inside a concatenate, array([x]) == [x] and the container may be a tuple
+        if name == "array" and len(node.args) == 1 and not node.keywords and isinstance(node.args[0], ast.BinOp) and isinstance(node.args[0].op, ast.Add) and isinstance(node.args[0].right, ast.List):
+            return ast.Call(func=ast.Name(id="concatenate", ctx=ast.Load()), args=[ast.List(elts=[node.args[0].left, node.args[0].right], ctx=ast.Load())], keywords=[])
+        if name == "append" and len(node.args) == 2 and not node.keywords:
+            return ast.Call(func=ast.Name(id="concatenate", ctx=ast.Load()), args=[ast.List(elts=[node.args[0], ast.List(elts=[node.args[1]], ctx=ast.Load())], ctx=ast.Load())], keywords=[])
+        if name == "concatenate" and node.args and isinstance(node.args[0], (ast.List, ast.Tuple)):
+            elts = []
+            for e_ in node.args[0].elts:
+                if isinstance(e_, ast.Call) and isinstance(e_.func, ast.Name) and e_.func.id == "array" and len(e_.args) == 1 and not e_.keywords and isinstance(e_.args[0], ast.List):
+                    e_ = e_.args[0]
+                elts.append(e_)
+            node.args = [ast.List(elts=elts, ctx=ast.Load())] + node.args[1:]
         # value-level identities: a copy of x has the value of x (aliasing rules read the raw tree, not this form)
         if isinstance(f, ast.Attribute) and f.attr == "copy" and not node.args and not node.keywords:
             return f.value
